@@ -1590,6 +1590,12 @@ class Tensor(object):
 
                     add_core[..., key[i], :] += value.cores[i]
             add_cores.append(add_core)
+        if not scalar and not self.batch and len(value.shape) != len(key):
+            raise ValueError(
+                "Dimension mismatch in tensor assignment: the value has {} dimensions, the selected region has {}".format(
+                    len(value.shape), len(key)
+                )
+            )
         result = (
             src
             - tn.Tensor(subtract_cores, batch=self.batch)
